@@ -191,10 +191,11 @@ Lemma C_strips :
                    ++ accumulate (rem_row (pbeg cpB r) (psize cpB r) evs))
                  (nth r (chunks rpA (rows A)) [])) (seq 0 n).
 Proof.
+  remember (concat (strips DB)) as SB eqn:ESB.
   unfold strips. change (dm_cparts C) with cpB. rewrite <- HlenB.
   apply map_ext_in. intros r Hr. apply in_seq in Hr.
-  remember (concat (strips DB)) as SB eqn:ESB.
   unfold dist_product. cbn [dm_ranks dm_cparts]. rewrite <- ESB.
+  change (dm_cparts DB) with cpB. change (dm_cparts DA) with cpA.
   rewrite (nth_map_seq _ n r dflt_rank) by lia.
   unfold strip_rows at 1. cbn [rm_loc rm_rem rows].
   rewrite map2_map_map.
@@ -208,9 +209,11 @@ Theorem dist_product_assembled :
   Forall2 row_equiv (rows (assemble C)) (rows (spgemm_saad A B false)).
 Proof.
   split; [reflexivity|].
-  unfold assemble. simpl rows. rewrite C_strips.
-  unfold spgemm_saad. simpl rows.
-  rewrite (rows_as_blocks A rpA n HlenA HrowsA) at 2. rewrite concat_map, map_map.
+  unfold assemble. cbn [rows]. rewrite C_strips.
+  unfold spgemm_saad. cbn [rows].
+  pose proof (rows_as_blocks A rpA n HlenA HrowsA) as E.
+  remember (chunks rpA (rows A)) as La eqn:ELa. rewrite E. clear E ELa.
+  rewrite concat_map, map_map.
   apply Forall2_concat_map. intros r _.
   apply Forall2_map_same. intros ra _. intro j. cbv zeta.
   rewrite (rget_split_accumulate (pbeg cpB r) (psize cpB r) _ j).
@@ -219,5 +222,15 @@ Proof.
   apply lin_ext. intro c.
   apply (Forall2_nth_equiv _ _ c (strips_equiv B cpA cpB HlenB HrowsB)).
 Qed.
+
+Lemma Forall2_len {X Y} (R : X -> Y -> Prop) (l1 : list X) (l2 : list Y) : Forall2 R l1 l2 -> length l1 = length l2.
+Proof. induction 1; simpl; [reflexivity | f_equal; assumption]. Qed.
+
+Corollary dist_product_rows : length (rows (assemble C)) = length (rows (spgemm_saad A B false)).
+Proof. exact (Forall2_len _ _ _ (proj2 dist_product_assembled)). Qed.
+
+Corollary dist_product_dense i j :
+  mget (assemble C) i j = mget (spgemm_saad A B false) i j.
+Proof. unfold mget. apply (Forall2_nth_equiv _ _ i (proj2 dist_product_assembled)). Qed.
 
 End Product.
